@@ -27,6 +27,10 @@ type trapSite struct {
 	desc   string // position-free discriminator
 	proved bool
 	why    string
+	upper  bool // index/slice: the upper bound alone is proved
+	lower  bool
+	target string // rendering of the indexed operand
+	write  bool   // the site is an assignment target
 }
 
 type zone struct {
@@ -96,13 +100,17 @@ func (z *zone) addNE(a, b string, c int) { // a - b != c
 }
 
 func (z *zone) forget(sym string) {
+	bare := "<" + strings.TrimPrefix(strings.TrimPrefix(sym, "v:"), "len:") + ">"
+	hit := func(s string) bool {
+		return s == sym || (strings.HasPrefix(s, "e:") && strings.Contains(s, bare))
+	}
 	for k := range z.bound {
-		if k[0] == sym || k[1] == sym {
+		if hit(k[0]) || hit(k[1]) {
 			delete(z.bound, k)
 		}
 	}
 	for k := range z.diseq {
-		if k[0] == sym || k[1] == sym {
+		if hit(k[0]) || hit(k[1]) {
 			delete(z.diseq, k)
 		}
 	}
@@ -305,6 +313,33 @@ func (b *boundsAnalyser) objOf(e ast.Expr) types.Object {
 	return nil
 }
 
+// chainSym names an operand that is a variable or a pure field-selection
+// chain (u.ctx.Memory); the chain is assumed stable within the function unless
+// it is assigned (assignments forget it).
+func (b *boundsAnalyser) chainSym(e ast.Expr) (string, bool) {
+	e = ast.Unparen(e)
+	if o, ok := b.objOf(e).(*types.Var); ok {
+		return symOf(o), true
+	}
+	if sel, ok := e.(*ast.SelectorExpr); ok {
+		x := ast.Expr(sel)
+		for {
+			s2, ok := ast.Unparen(x).(*ast.SelectorExpr)
+			if !ok {
+				break
+			}
+			if sl := b.info.Selections[s2]; sl == nil || sl.Kind() != types.FieldVal {
+				return "", false
+			}
+			x = s2.X
+		}
+		if _, ok := ast.Unparen(x).(*ast.Ident); ok {
+			return "sel:" + types.ExprString(sel), true
+		}
+	}
+	return "", false
+}
+
 func (b *boundsAnalyser) isInt(e ast.Expr) bool {
 	t := b.info.TypeOf(e)
 	if t == nil {
@@ -330,8 +365,8 @@ func (b *boundsAnalyser) linear(e ast.Expr) lin {
 	case *ast.CallExpr:
 		if id, ok := ast.Unparen(x.Fun).(*ast.Ident); ok && id.Name == "len" && len(x.Args) == 1 {
 			if _, isB := b.info.Uses[id].(*types.Builtin); isB {
-				if o, ok := b.objOf(x.Args[0]).(*types.Var); ok {
-					return lin{"len:" + symOf(o), 0, true}
+				if k, ok := b.chainSym(x.Args[0]); ok {
+					return lin{"len:" + k, 0, true}
 				}
 			}
 		}
@@ -339,6 +374,12 @@ func (b *boundsAnalyser) linear(e ast.Expr) lin {
 		if tv, ok := b.info.Types[x.Fun]; ok && tv.IsType() && len(x.Args) == 1 && b.isInt(x.Args[0]) {
 			if bt, ok := tv.Type.Underlying().(*types.Basic); ok && (bt.Kind() == types.Int || bt.Kind() == types.Int64) {
 				return b.linear(x.Args[0])
+			}
+			// a conversion between named/unnamed 32-bit signed types keeps the value
+			if bt, ok := tv.Type.Underlying().(*types.Basic); ok && bt.Kind() == types.Int32 {
+				if at, ok := b.info.TypeOf(x.Args[0]).Underlying().(*types.Basic); ok && at.Kind() == types.Int32 {
+					return b.linear(x.Args[0])
+				}
 			}
 		}
 	case *ast.BinaryExpr:
@@ -355,7 +396,58 @@ func (b *boundsAnalyser) linear(e ast.Expr) lin {
 			}
 		}
 	}
+	// any other pure integer expression is a symbol of its own: two
+	// occurrences of the same expression over unassigned variables are equal
+	if b.isInt(e) {
+		if k, ok := b.exprSym(e); ok {
+			return lin{"e:" + k, 0, true}
+		}
+	}
 	return lin{}
+}
+
+func (b *boundsAnalyser) exprSym(e ast.Expr) (string, bool) {
+	e = ast.Unparen(e)
+	if tv, ok := b.info.Types[e]; ok && tv.Value != nil {
+		return tv.Value.ExactString(), true
+	}
+	switch x := e.(type) {
+	case *ast.Ident:
+		if o, ok := b.objOf(x).(*types.Var); ok {
+			return "<" + symOf(o) + ">", true
+		}
+	case *ast.SelectorExpr:
+		if k, ok := b.chainSym(x); ok {
+			return "<" + k + ">", true
+		}
+	case *ast.BinaryExpr:
+		switch x.Op {
+		case token.ADD, token.SUB, token.MUL:
+			l, ok1 := b.exprSym(x.X)
+			r, ok2 := b.exprSym(x.Y)
+			if ok1 && ok2 {
+				return "(" + l + x.Op.String() + r + ")", true
+			}
+		}
+	case *ast.CallExpr:
+		if tv, ok := b.info.Types[x.Fun]; ok && tv.IsType() && len(x.Args) == 1 {
+			// widening or same-width integer conversions keep the value
+			to, ok1 := tv.Type.Underlying().(*types.Basic)
+			from, ok2 := b.info.TypeOf(x.Args[0]).Underlying().(*types.Basic)
+			if ok1 && ok2 && to.Info()&types.IsInteger != 0 && from.Info()&types.IsInteger != 0 {
+				wt, wf := intWidth[typeName(to)], intWidth[typeName(from)]
+				if wt >= wf && (to.Info()&types.IsUnsigned == 0) {
+					return b.exprSym(x.Args[0])
+				}
+			}
+		}
+		if id, ok := ast.Unparen(x.Fun).(*ast.Ident); ok && id.Name == "len" && len(x.Args) == 1 {
+			if k, ok := b.chainSym(x.Args[0]); ok {
+				return "<len:" + k + ">", true
+			}
+		}
+	}
+	return "", false
 }
 
 func (b *boundsAnalyser) site(kind string, pos token.Pos, desc string, proved bool, why string) {
@@ -891,7 +983,11 @@ func (b *boundsAnalyser) lvalue(e ast.Expr, z *zone) {
 				return
 			}
 		}
+		n := len(b.sites)
 		b.expr(e, z)
+		if len(b.sites) > n {
+			b.sites[len(b.sites)-1].write = true
+		}
 	default:
 		b.expr(e, z)
 	}
@@ -1088,26 +1184,30 @@ func (b *boundsAnalyser) expr(e ast.Expr, z *zone) {
 		if tv, ok := b.info.Types[x.X]; ok && tv.IsType() {
 			return // generic instantiation
 		}
-		xo, isVar := b.objOf(x.X).(*types.Var)
+		xk, isVar := b.chainSym(x.X)
 		i := b.linear(x.Index)
 		ok := false
 		why := "index not proved within [0,len)"
+		lo, up := false, false
 		if isVar && i.ok {
-			L := lin{"len:" + symOf(xo), -1, true}
-			if z.proveLE(lin{"0", 0, true}, i) && z.proveLE(i, L) {
+			L := lin{"len:" + xk, -1, true}
+			lo = z.proveLE(lin{"0", 0, true}, i)
+			up = z.proveLE(i, L)
+			if lo && up {
 				ok, why = true, "0 <= index <= len-1 from dominating guards"
 			}
 		}
 		b.site("index", x.Pos(), exprKey(x), ok, why)
+		b.sites[len(b.sites)-1].lower, b.sites[len(b.sites)-1].upper, b.sites[len(b.sites)-1].target = lo, up, types.ExprString(x.X)
 	case *ast.SliceExpr:
 		b.expr(x.X, z)
 		b.expr(x.Low, z)
 		b.expr(x.High, z)
-		xo, isVar := b.objOf(x.X).(*types.Var)
+		xk, isVar := b.chainSym(x.X)
 		ok := false
 		why := "slice bounds not proved"
 		if isVar {
-			L := lin{"len:" + symOf(xo), 0, true}
+			L := lin{"len:" + xk, 0, true}
 			lo := lin{"0", 0, true}
 			if x.Low != nil {
 				lo = b.linear(x.Low)
@@ -1119,6 +1219,11 @@ func (b *boundsAnalyser) expr(e ast.Expr, z *zone) {
 			if z.proveLE(lin{"0", 0, true}, lo) && z.proveLE(lo, hi) && z.proveLE(hi, L) {
 				ok, why = true, "0 <= low <= high <= len from dominating guards"
 			}
+			b.site("slice", x.Pos(), exprKey(x), ok, why)
+			b.sites[len(b.sites)-1].lower = z.proveLE(lin{"0", 0, true}, lo)
+			b.sites[len(b.sites)-1].upper = z.proveLE(lo, hi) && z.proveLE(hi, L)
+			b.sites[len(b.sites)-1].target = types.ExprString(x.X)
+			return
 		}
 		b.site("slice", x.Pos(), exprKey(x), ok, why)
 	}
